@@ -359,7 +359,7 @@ func (o *Op) lines0() []string {
 		return o.Img.lines(o.Path)
 	case "keys":
 		return getUniverse().keyLines()
-	case "facts", "forge", "transplant":
+	case "facts", "forge", "transplant", "rewrap", "readd":
 		return o.Raw
 	case "vhold":
 		return []string{"vhold " + o.V.String()}
@@ -394,7 +394,7 @@ func (o *Op) lines0() []string {
 		}
 		di := sigObjectDI(o.Blobs[0], o.S.Groups[0], 0, 1, o.FP, 0)
 		return append([]string{"add t=det now=0"}, di.Lines()...)
-	case "patch":
+	case "patch", "fpatch":
 		ls := []string{fmt.Sprintf("patch nsites=%d", len(o.Sites))}
 		for _, p := range o.Sites {
 			ls = append(ls, fmt.Sprintf("ps off=%d hex=%s", p.Off, hx(p.B)))
